@@ -79,8 +79,8 @@ let run_case cid (t : toks) =
     let rec go l (cs : qc clevel list) (xin, bin) lower =
       match cs, lower with
       | c :: rest, (bl', xl') :: lower' ->
-        let nc = int_of_nat (next_n rest h.ch_coarse) and cparts = next_parts rest h.ch_cparts in
-        let lev = mk_level z (q_of_int 1) qcplus qcmult qcminus qcinv qc_tiny h c (nat_of_int nc) cparts in
+        let nc = int_of_nat (next_n rest h.ch_coarse) in
+        let lev = mk_level z (q_of_int 1) qcplus qcmult qcminus qcinv qc_tiny h c (nat_of_int nc) in
         let scr = { s_tmp = zs (List.length c.cl_A); s_xc = zs nc; s_bc = zs nc } in
         let ((x3, _), ss) = cycle z (fun _ _ -> xl') [lev] [scr] xin bin in
         Printf.printf "%s STGX %d %s\n" cid l (qs_str x3);
